@@ -116,6 +116,16 @@ class RealWorld:
                 oq = c.ceval(SW.O_QTY(o), lambda r: float(r.choice([-50, -10, -3, 5, 20, 70])))
                 oa_i = c.ceval(SW.O_ASSET(o), lambda r: c.keyorder[r.choice(self.assets)], int)
                 oa = next((k for k, v in c.keyorder.items() if v == oa_i and k in self.assets), None)
+                if getattr(c, 'model', None) is not None and self.assets:
+                    # replay of a counter-model: asset and size of a queued order the refutation does not depend on are left open by
+                    # the solver (model completion gives 0 / an undeclared key); any order satisfying BrInv completes the input - the
+                    # native run on the real broker, not the model, is what a reported violation rests on
+                    if oa is None:
+                        oa = self.assets[0]
+                        c.values['term:' + str(SW.O_ASSET(o))] = c.keyorder[oa]
+                    if oq == 0:
+                        oq = 1.0
+                        c.values['term:' + str(SW.O_QTY(o))] = oq
                 if oa is None or oq == 0:
                     raise Reject('order on an undeclared asset')
                 qu.put(Order(_ts(clk), oa, oq))
